@@ -64,7 +64,7 @@ func noChildrenLeft() bool {
 
 func runC07(res *Result, d *Driver, tier string, seed uint64) {
 	res.Rule = "part A: for option-set numbers n, a fault (errno 13) injected at every step k>=1 of the regenerated child (Go-lite, abstract kernel): the child must not exec, must exit with the errno and must have reported (errno, expected location, index) — or, for the documented ignorable steps, continue; " +
-		"part B: real forkexec.Runner.Start with failures induced by real inputs at each reachable step (closed fd in Files, bad mount source at index k, mount target under a file, pivot into a missing dir, missing workdir, rlimit soft>hard at index k, invalid filter, missing / non-executable / ENOEXEC executable, failing sync callback, unwritable id map) x configurations (sync callback, late cgroup unshare, user namespace, descriptor layouts that put the error channel 0..2 numbers above the scratch start of the shuffle with more relocations than that, an already-ended uncollected other child of the caller): ChildError fields, marker file absent, no child left; and the callback is invoked before the target runs with the pid of that very process; " +
+		"part B: real forkexec.Runner.Start with failures induced by real inputs at each reachable step (closed fd in Files, bad mount source at index k, mount target under a file, pivot into a missing dir, missing workdir, rlimit soft>hard at index k, invalid filter, missing / non-executable / ENOEXEC executable, failing sync callback, unwritable id map) x configurations (sync callback, late cgroup unshare, user namespace, descriptor layouts that put the error channel 1..3 numbers above the scratch start of the shuffle with more relocations than that, an already-ended uncollected other child of the caller): ChildError fields, marker file absent, no child left; and the callback is invoked before the target runs with the pid of that very process; " +
 		"part C: container Execve with SyncFunc before/after exec (pid designates the process in the host's pid namespace). non-trivial = every case; distinct = (option set) / (fault, configuration)."
 	rng := NewRng(seed, "C07", 1)
 	baselineChildren = childPids() // the model driver
@@ -179,7 +179,7 @@ func runC07(res *Result, d *Driver, tier string, seed uint64) {
 				layout := -1
 				cleanupLayout := func() {}
 				if !withPtrace && rng.Chance(50) {
-					layout = rng.Intn(3)
+					layout = 1 + rng.Intn(3)
 					r.Files, cleanupLayout = pipeAbove(layout, devnull)
 				}
 				// another child of the caller that has already ended and is not yet collected: the failed launch must reap
@@ -398,6 +398,11 @@ func runC07(res *Result, d *Driver, tier string, seed uint64) {
 // that need relocation. cleanup closes the fillers.
 func pipeAbove(d int, devnull *os.File) ([]uintptr, func()) {
 	open := openFdSet()
+	for fd := range open { // the listing contains its own directory descriptor, closed by now
+		if _, _, e := syscall.Syscall(syscall.SYS_FCNTL, uintptr(fd), syscall.F_GETFD, 0); e != 0 {
+			delete(open, fd)
+		}
+	}
 	T := 12
 	for fd := range open {
 		if fd >= T {
